@@ -68,6 +68,7 @@ Definition cancel_plain (k : bkind) : bool := match k with BIo _ | BWaitIo => tr
 Definition has_timer (k : bkind) : bool := match k with BPark _ true | BSleep | BIo true => true | _ => false end.
 Definition plain_wake (k : bkind) : bool := match k with BSleep => false | _ => true end.
 Definition is_park (k : bkind) : bool := match k with BPark _ _ => true | _ => false end.
+Definition is_select (k : bkind) : bool := match k with BSelect => true | _ => false end.
 
 Inductive pc := PNone | PNew | PBody | PShort (k : bkind) | PSusp (k : bkind) | PReady (k : bkind)
               | PBack (k : bkind) | PAfter (k : bkind) | PEnd | PPut | PDone.
@@ -263,10 +264,8 @@ Definition step (cf : cfg) (s : st) (a : action) : option st :=
           if is_park k && ptokm s c then
             Some (s |> set_ptokm (upd (ptokm s) c false) |> set_verm (upd (verm s) c (Some None)) |> set_vkindm (upd (vkindm s) c k))
           else if canceled s c then
-            match k, panim s c with
-            | BSelect, false => Some (s |> set_para_of c None |> raise c)
-            | _, _ => Some (s |> set_para_of c (Some ECanceled) |> set_pc c (PShort k))
-            end
+            if is_select k && negb (panim s c) then Some (s |> set_para_of c None |> raise c)
+            else Some (s |> set_para_of c (Some ECanceled) |> set_pc c (PShort k))
           else Some (s |> set_trunm (upd (trunm s) (thrm s c) None) |> set_pc c (PSusp k))
       | _ => None
       end
